@@ -895,9 +895,13 @@ func TestCrashEnumeration(t *testing.T) {
 		if lo.inconclusive != "" || counts == nil {
 			continue
 		}
+		rec.Count("histories", 1)
 		for _, p := range allPoints {
 			if counts[p] == 0 {
 				unreached[p] = true
+				rec.Count("history_does_not_reach:"+p, 1)
+			} else {
+				rec.Count("history_reaches:"+p, 1)
 			}
 		}
 		plans, excluded := enumerate(&h, counts, active)
